@@ -95,6 +95,9 @@ type funcSpec struct {
 	// Detach: local pointer variable -> source text of a call after which the object it points to is no
 	// longer an element of the container it was taken from (reviewed; the write-back stops there)
 	Detach map[string]string `json:"detach,omitempty"`
+	// Persist (round 4): source text of a call that writes its receiver to durable storage (Save) -> ghost
+	// field of the root variable that receives the value written (the durable copy)
+	Persist map[string]string `json:"persist,omitempty"`
 }
 
 type typeSpec struct {
@@ -106,6 +109,9 @@ type typeSpec struct {
 	// Wrap: pointer-to-struct fields whose Lean field holds the single component `proj` of the
 	// pointed-to (generated) structure: read as `(mk x.f)`, written as `x.f := v.proj`
 	Wrap map[string]wrapSpec `json:"wrap,omitempty"`
+	// Ghost (round 4): extra fields of the generated structure that have no Go counterpart (name -> key of
+	// funcs.json/types): the durable copy written by a "persist" call
+	Ghost map[string]string `json:"ghost,omitempty"`
 }
 
 type wrapSpec struct {
@@ -158,15 +164,16 @@ func (s funcSpec) key() string {
 }
 
 type translator struct {
-	pr      *Prog
-	exp     funcsExpect
-	done    map[*types.Func]*trFunc
-	order   []*trFunc
-	globals map[*types.Var]string // package-level values used by translated functions -> Lean name
-	globDef []string
-	externs map[string]bool
-	usedTy  map[string]bool
-	extPkgs map[string]*types.Package
+	pr        *Prog
+	exp       funcsExpect
+	done      map[*types.Func]*trFunc
+	order     []*trFunc
+	globals   map[*types.Var]string // package-level values used by translated functions -> Lean name
+	globDef   []string
+	externs   map[string]bool
+	usedTy    map[string]bool
+	extPkgs   map[string]*types.Package
+	ledgerCtx int // > 0 while a function / struct of package ledger is translated (translate_ledger.go)
 }
 
 const funcsPrelude = `/-
@@ -202,6 +209,7 @@ const funcsPrelude = `/-
   funcs.json (reviewed): after the named call a pointer into a container is a detached copy.
 -/
 import Rigo.Types
+import Rigo.Ledger.Impl
 
 namespace Rigo.Gen
 
@@ -330,6 +338,7 @@ func (pr *Prog) translateFuncsFull(expectDir string) (string, M, []string, map[s
 	var b strings.Builder
 	b.WriteString(funcsPrelude)
 	b.WriteString(ctrlPrelude)
+	b.WriteString(ledgerPrelude)
 
 	// generated structures (in the order of the sorted Go type names)
 	var tnames []string
@@ -353,7 +362,13 @@ func (pr *Prog) translateFuncsFull(expectDir string) (string, M, []string, map[s
 			continue
 		}
 		ts := fe.Types[k]
+		if strings.HasPrefix(k, "ledger.") {
+			tr.ledgerCtx++
+		}
 		st, probs := tr.genStruct(k, ts)
+		if strings.HasPrefix(k, "ledger.") {
+			tr.ledgerCtx--
+		}
 		for _, p := range probs {
 			problems = append(problems, "type "+k+": "+p)
 		}
@@ -454,7 +469,14 @@ func (tr *translator) get(fn *types.Func) *trFunc {
 	f := newTrFunc(tr, tr.pr.byObj[fn], spec, tr.pr.byObj[fn].Pkg.TypesInfo)
 	tr.done[fn] = f // (a recursive reference sees inProgress)
 	f.inProgress = true
+	saved := tr.ledgerCtx
+	if spec.Pkg == "ledger" {
+		tr.ledgerCtx = 1
+	} else {
+		tr.ledgerCtx = 0
+	}
 	f.translate()
+	tr.ledgerCtx = saved
 	f.inProgress = false
 	tr.order = append(tr.order, f)
 	return f
@@ -572,6 +594,9 @@ func intKindOf(t types.Type) intKind {
 
 // leanType of a Go type (pointers to structs as plain values; Option-ness is decided per variable)
 func (tr *translator) leanType(t types.Type) (string, error) {
+	if s, ok := tr.ledgerLeanType(t); ok {
+		return s, nil
+	}
 	if isUint256(t) {
 		return "Nat", nil
 	}
@@ -639,6 +664,9 @@ func (tr *translator) leanType(t types.Type) (string, error) {
 }
 
 func (tr *translator) zeroValue(t types.Type) (string, error) {
+	if s, ok := tr.ledgerZero(t); ok {
+		return s, nil
+	}
 	if isUint256(t) {
 		return "", fmt.Errorf("nil *uint256.Int")
 	}
@@ -805,6 +833,31 @@ func (tr *translator) genStruct(key string, ts typeSpec) (string, []string) {
 		}
 		b.WriteString(fmt.Sprintf("  %s : %s\n", ln, lt))
 	}
+	var gks []string
+	for g := range ts.Ghost {
+		gks = append(gks, g)
+	}
+	sort.Strings(gks)
+	for _, g := range gks {
+		gt, ok := tr.exp.Types[ts.Ghost[g]]
+		if !ok {
+			gt, ok = tr.exp.Types[key[:i+1]+ts.Ghost[g]]
+		}
+		if !ok {
+			for k2, t2 := range tr.exp.Types {
+				if t2.Lean == ts.Ghost[g] {
+					gt, ok = t2, true
+					tr.usedTy[k2] = true
+				}
+			}
+		}
+		if !ok {
+			probs = append(probs, "ghost field "+g+": no type "+ts.Ghost[g])
+			b.WriteString(fmt.Sprintf("  %s : Unsupported\n", g))
+			continue
+		}
+		b.WriteString(fmt.Sprintf("  %s : %s\n", g, gt.Lean))
+	}
 	var fs []string
 	for k := range ts.Fields {
 		if !seen[k] {
@@ -816,7 +869,7 @@ func (tr *translator) genStruct(key string, ts typeSpec) (string, []string) {
 		probs = append(probs, "field "+k+" of funcs.json does not exist")
 		b.WriteString(fmt.Sprintf("  %s : Unsupported\n", ts.Fields[k]))
 	}
-	if !strings.Contains(b.String(), "GLedger") {
+	if !strings.Contains(b.String(), "GLedger") && !strings.Contains(b.String(), "LMap") && !strings.Contains(b.String(), "Rigo.Ledger.") && !strings.HasPrefix(key, "ledger.") {
 		b.WriteString("  deriving Repr, DecidableEq\n")
 	}
 	return b.String(), probs
